@@ -20,7 +20,7 @@ pub fn property() -> Property {
     Property {
         id: "C13",
         level: "fault_enumeration",
-        rule: "Real loopback sockets; peers are harness threads with scripted stalls. Stall point in {upload not read (8 MiB body), inside the status line, between header lines, after the blank line, after k body bytes (length / close framing), inside a chunk-size line, inside chunk data, before the terminal chunk, during the TLS handshake of a direct https dial, inside the CONNECT reply, inside the tunnel} x {silent stall, one byte every R/3} x timeouts {T=300 ms, T=150 ms, T=300 ms + R=100 ms, R=150 ms alone, T=0 (deadline already expired when the connection is made), T=20 s + R=150 ms (the read timeout must fire although an overall timeout is set), R=0 alone (boundary value: every stall is longer than it; the call ends with an error at once, it must not turn into 'no read timeout')} and redirect chains of fast hops that together exceed T. Oracle: (a) the call returns Err within T (or R) + 1.5 s although the peer would hold it for 20 s; (d) the first end-of-body signal is never Ok for a body the peer had not finished; (c) converse histories (T in {1.5 s, 10 s, 2^62 s, Duration::MAX}) - complete responses of every framing, read with loops of several buffer sizes plus up to 5 further reads after end-of-body spread over 200 ms - never see TimedOut (nor any error) before t0+T; (e) 250 ms after the response/error is dropped the process has no more threads or file descriptors than before the case. Hook H3 (schedule points in the watchdog thread and around the reader's end-of-stream ping) holds either thread at each label in turn (<= 400 ms) for the scenarios {genuine end of stream before the deadline, stall cut by the deadline} x {close-delimited, length-delimited}; the recorded label sequences are the distinct interleavings observed. Resource fault 'fd-exhaustion': RLIMIT_NOFILE is lowered and the descriptor table filled so that k in {0,1,2,3} slots are free when the connection is made (k=1: the socket can be opened, the watchdog's own handle on it cannot) against a listener that never answers: the call still returns within T + margin. Load probe: a case whose 20 ms sleep oversleeps by > 150 ms is retried (x3) and then counted inconclusive, never as a violation. Non-trivial: every scenario; distinct = hash(scenario).",
+        rule: "Real loopback sockets; peers are harness threads with scripted stalls. Stall point in {upload not read (8 MiB body), inside the status line, between header lines, after the blank line, after k body bytes (length / close framing), inside a chunk-size line, inside chunk data, before the terminal chunk, during the TLS handshake of a direct https dial, inside the CONNECT reply, inside the tunnel} x {silent stall, one byte every R/3} x timeouts {T=300 ms, T=150 ms, T=300 ms + R=100 ms, R=150 ms alone, T=0 (deadline already expired when the connection is made), T=20 s + R=150 ms (the read timeout must fire although an overall timeout is set), R=0 alone (boundary value: every stall is longer than it; the call ends with an error at once, it must not turn into 'no read timeout')} and redirect chains of fast hops that together exceed T. Oracle: (a) the call returns Err within T (or R) + 1.5 s although the peer would hold it for 20 s; (d) the first end-of-body signal is never Ok for a body the peer had not finished; (c) converse histories (T in {1.5 s, 10 s, 2^62 s, Duration::MAX}) - complete responses of every framing, read with loops of several buffer sizes plus up to 5 further reads after end-of-body spread over 200 ms - never see TimedOut (nor any error) before t0+T; (e) 250 ms after the response/error is dropped the process has no more threads or file descriptors than before the case. Hook H3 (schedule points in the watchdog thread and around the reader's end-of-stream ping) holds either thread at each label in turn (<= 400 ms) for the scenarios {genuine end of stream before the deadline, stall cut by the deadline} x {close-delimited, length-delimited}; the recorded label sequences are the distinct interleavings observed; 'stale watchdog' scenarios hold the watchdog of a finished, dropped request at wd.wake / wd.dropped / wd.shutdown while the NEXT request (T = 30 s) runs and release it in the middle of that body, which must arrive complete. Resource fault 'fd-exhaustion': RLIMIT_NOFILE is lowered and the descriptor table filled so that k in {0,1,2,3} slots are free when the connection is made (k=1: the socket can be opened, the watchdog's own handle on it cannot) against a listener that never answers: the call still returns within T + margin. Load probe: a case whose 20 ms sleep oversleeps by > 150 ms is retried (x3) and then counted inconclusive, never as a violation. Non-trivial: every scenario; distinct = hash(scenario).",
         assumptions: &["the connect phase is outside the statement and not judged", "Linux loopback; Windows branches are not run", "reads issued only after T has passed are not judged (the exchange as a whole exceeded T)"],
         min_nontrivial: |t| t.pick(60, 400),
         gens,
@@ -34,6 +34,7 @@ fn gens(tier: Tier) -> Vec<Gen> {
         Gen { name: "stalls", count: stall_count(tier), exhaustive: tier == Tier::Thorough, run: run_stall },
         Gen { name: "converse", count: tier.pick(24, 400), exhaustive: false, run: run_converse },
         Gen { name: "interleavings", count: (2 * 2 * 6) as u64, exhaustive: true, run: run_interleaving },
+        Gen { name: "stale-watchdog", count: (3 * 2) as u64, exhaustive: true, run: run_stale_watchdog },
         Gen { name: "fd-exhaustion", count: (4 * 2) as u64, exhaustive: true, run: run_fd_exhaustion },
         Gen { name: "redirect-chain", count: tier.pick(2, 8), exhaustive: false, run: run_redirect_chain },
     ]
@@ -637,4 +638,100 @@ fn run_fd_exhaustion(ctx: &mut Ctx, _rng: &mut Rng, index: u64) {
         break;
     }
     ctx.nontrivial(format!("fdx{index}").as_bytes());
+}
+
+// ---- a watchdog that is still on its way out when the NEXT request starts ---------------------------
+//
+// Request 1 (T = 150 ms) returns its response after the head; the caller keeps it until the
+// deadline has passed, so that the watchdog has decided to cut the connection, and the hook
+// holds the watchdog at one of its labels. The response is dropped (its descriptor number becomes
+// free), request 2 (T = 30 s) is made - typically on the same descriptor number -, and only then
+// is the old watchdog released. Whatever it still does must not touch request 2.
+
+fn run_stale_watchdog(ctx: &mut Ctx, _rng: &mut Rng, index: u64) {
+    let hold_at: &'static str = ["wd.wake", "wd.dropped", "wd.shutdown"][(index % 3) as usize];
+    let close_delimited = (index / 3) % 2 == 0;
+    struct G {
+        state: Mutex<(bool, bool, Vec<String>)>, // (released, somebody is/was held, labels)
+        cv: Condvar,
+    }
+    let g = Arc::new(G { state: Mutex::new((false, false, Vec::new())), cv: Condvar::new() });
+    let g2 = g.clone();
+    set_sched_hook(Some(Arc::new(move |label: &'static str| {
+        let mut st = g2.state.lock().unwrap();
+        st.2.push(label.to_owned());
+        if label == hold_at && !st.0 && !st.1 {
+            st.1 = true;
+            g2.cv.notify_all();
+            let (st2, _) = g2.cv.wait_timeout_while(st, Duration::from_secs(4), |s| !s.0).unwrap();
+            drop(st2);
+        }
+    })));
+    let stop = Arc::new(AtomicBool::new(false));
+    let stop1 = stop.clone();
+    let server1: Server<()> = Server::spawn(move |mut s: TcpStream| {
+        let _ = read_head(&mut s);
+        write_all_ignore(&mut s, b"HTTP/1.1 200 OK\r\n\r\nfirst response, never finished");
+        stall(&mut s, b"", None, &stop1);
+    });
+    let (go_tx, go_rx) = std::sync::mpsc::channel::<()>();
+    let go_rx = Mutex::new(go_rx);
+    let server2: Server<()> = Server::spawn(move |mut s: TcpStream| {
+        let _ = read_head(&mut s);
+        if close_delimited {
+            write_all_ignore(&mut s, b"HTTP/1.1 200 OK\r\n\r\npart one, ");
+        } else {
+            write_all_ignore(&mut s, b"HTTP/1.1 200 OK\r\nContent-Length: 18\r\n\r\npart one, ");
+        }
+        // the second part only after the old watchdog was released
+        let _ = go_rx.lock().unwrap().recv_timeout(Duration::from_secs(6));
+        std::thread::sleep(Duration::from_millis(150));
+        write_all_ignore(&mut s, b"part two");
+    });
+    let r1 = attohttpc::get(format!("http://127.0.0.1:{}/one", server1.port)).timeout(Duration::from_millis(150)).read_timeout(Duration::from_secs(10)).send();
+    // wait until the watchdog of request 1 is held at the label (its deadline has passed)
+    let held = {
+        let st = g.state.lock().unwrap();
+        let (st, _) = g.cv.wait_timeout_while(st, Duration::from_secs(3), |s| !s.1).unwrap();
+        st.1
+    };
+    drop(r1);
+    let t0 = Instant::now();
+    let r2 = attohttpc::get(format!("http://127.0.0.1:{}/two", server2.port)).timeout(Duration::from_secs(30)).read_timeout(Duration::from_secs(10)).send();
+    // release the old watchdog while request 2 is in the middle of its body
+    {
+        let mut st = g.state.lock().unwrap();
+        st.0 = true;
+        g.cv.notify_all();
+    }
+    let _ = go_tx.send(());
+    let res2 = match r2 {
+        Err(e) => Err(format!("send: {e:?}")),
+        Ok(mut resp) => {
+            let mut v = Vec::new();
+            match resp.read_to_end(&mut v) {
+                Ok(_) => Ok(v),
+                Err(e) => Err(format!("read: {:?}: {e} after {:?}", e.kind(), String::from_utf8_lossy(&v))),
+            }
+        }
+    };
+    let elapsed = t0.elapsed();
+    std::thread::sleep(Duration::from_millis(30));
+    set_sched_hook(None);
+    stop.store(true, Ordering::Relaxed);
+    drop((server1, server2));
+    let labels = g.state.lock().unwrap().2.clone();
+    ctx.count("stale_watchdog_scenarios", 1);
+    ctx.set_add("label_sequences", labels.join(">"));
+    let descr = format!("the watchdog of an earlier, already dropped request was held at {hold_at:?} (held: {held}) while the next request ({} body, T=30 s) was made, and released in the middle of that body: {:?} after {elapsed:?}; labels {labels:?}", if close_delimited { "close-delimited" } else { "length-delimited" }, res2.as_ref().map(|v| String::from_utf8_lossy(v).into_owned()));
+    if !held {
+        ctx.inconclusive(format!("the watchdog never reached {hold_at:?}"));
+    } else {
+        match &res2 {
+            Ok(v) if v == b"part one, part two" => {}
+            Ok(_) => ctx.violation("stale-watchdog:false-completion", format!("a body that was cut by ANOTHER request's watchdog was reported as complete; {descr}")),
+            Err(_) => ctx.violation("stale-watchdog:false-timeout-or-error", format!("a request far from its own deadline failed; {descr}")),
+        }
+    }
+    ctx.nontrivial(format!("sw{index}").as_bytes());
 }
